@@ -31,8 +31,12 @@ def nosched_frame(idx: str) -> str:
     return Command.from_attrs(RP, HGI, Code._0404, f"{hdr}0001FF", from_id=CTL)._frame
 
 
+def mk_pkt(frame: str) -> Packet:
+    return Packet.from_port(_NOW, "... " + frame)
+
+
 def mk_msg(frame: str) -> Message:
-    return Message(Packet.from_port(_NOW, "... " + frame))
+    return Message(mk_pkt(frame))
 
 
 def dhw_sched(points: list[list[tuple[str, bool]]]) -> dict:
@@ -81,13 +85,87 @@ class _Tcs:
     zone_lock_idx = None
 
 
+class HarnessError(Exception):
+    """Trouble inside the fake controller (never the library's doing)."""
+
+
+class _FetchNoEnd(Exception):
+    """The fetch loop keeps asking (the fake controller stops answering after MAX_RQ requests)."""
+
+
+class _Controller:
+    """A faithful controller for Schedule.get_schedule(): holds one catalogue version per zone, answers RQ|0006 with
+    its change counter and RQ|0404 with the catalogue's own RP packet of the fragment asked for.  Every command it
+    is sent goes through the library's decoder first.  Stands in for `gwy` (async_send_cmd) and, with the library's
+    own ScheduleSync._obtain_lock/_release_lock, for the `tcs` of the stub zones."""
+
+    MAX_RQ = 40
+
+    def __init__(self, cat: dict[str, dict]) -> None:
+        import threading
+
+        self.cat = cat
+        self.holds: dict[str, str] = {}
+        self.counter = 1
+        self.asked: list[int] = []  # fragment numbers asked for and answered (this fetch)
+        self.n_rq = 0
+        self.zone_lock = threading.Lock()
+        self.zone_lock_idx: str | None = None
+
+    # -- tcs
+    async def _schedule_version(self, *, force_io: bool = False) -> tuple[int, bool]:
+        pkt = await self.async_send_cmd(Command.get_schedule_version(CTL))
+        return Message(pkt).payload["change_counter"], True
+
+    async def _obtain_lock(self, zone_idx: str) -> None:
+        from ramses_rf.system.heat import ScheduleSync
+        await ScheduleSync._obtain_lock(self, zone_idx)  # type: ignore[arg-type]
+
+    def _release_lock(self) -> None:
+        from ramses_rf.system.heat import ScheduleSync
+        ScheduleSync._release_lock(self)  # type: ignore[arg-type]
+
+    # -- gwy
+    async def async_send_cmd(self, cmd: Command, **kwargs: Any) -> Packet:
+        try:
+            msg = mk_msg(cmd._frame)
+            code, verb = str(msg.code), str(msg.verb).strip()
+        except Exception as err:  # noqa: BLE001
+            raise HarnessError(f"the library's decoder refuses the library's own request {cmd!r}: {err}") from err
+        if code == "0006" and verb == "RQ":
+            return mk_pkt(f"RP --- {CTL} {HGI} --:------ 0006 004 0005{self.counter:04X}")
+        if code != "0404" or verb != "RQ":
+            raise HarnessError(f"unexpected command during a fetch: {cmd!r}")
+        self.n_rq += 1
+        if self.n_rq > self.MAX_RQ:
+            raise _FetchNoEnd(f"{self.n_rq} fragment requests in one fetch")
+        idx, k = msg.payload["zone_idx"], msg.payload["frag_number"]
+        frames = self.cat[self.holds[idx]]["frames"]
+        if not 1 <= k <= len(frames):
+            raise HarnessError(f"fragment {k} of a {len(frames)}-fragment schedule asked for")
+        self.asked.append(k)
+        return mk_pkt(frames[k - 1])
+
+
 class _Zone:
-    def __init__(self, idx: str) -> None:
+    def __init__(self, idx: str, ctl: _Controller | None = None) -> None:
         self.id = f"{CTL}_{idx}"
         self.idx = idx
         self.ctl = type("Ctl", (), {"id": CTL})()
-        self.tcs = _Tcs()
-        self._gwy = None
+        self.tcs = _Tcs() if ctl is None else ctl
+        self._gwy = ctl
+
+
+_LOOP = None
+
+
+def _loop():
+    """One event loop per process for the fetches (uncontended: get_schedule never sleeps)."""
+    global _LOOP
+    if _LOOP is None or _LOOP.is_closed():
+        import asyncio
+        _LOOP = asyncio.new_event_loop()
+    return _LOOP
 
 
 class Runner:
@@ -97,14 +175,17 @@ class Runner:
         S.EMPTY_PAYLOAD_SET[:] = [None]  # the module-level default is global state: reset between histories
         self.cat = cat
         self.zones = zones
-        self.sch = {z: S.Schedule(_Zone(z)) for z in zones}
+        self.ctl = _Controller(cat)
+        self.sch = {z: S.Schedule(_Zone(z, self.ctl)) for z in zones}
         self.frag_id: dict[str, tuple[str, int]] = {}
         for v, c in cat.items():
             for k, fr in enumerate(c["frames"], 1):
                 self.frag_id[fr.split()[-1][14:]] = (v, k)
 
     def apply(self, ev) -> dict:
-        kind, z, v, k = ev
+        kind, z, v, k = ev[:4]
+        if kind == "fetch":
+            return self.fetch(z, v)
         exc = ""
         frame = nosched_frame(z) if kind == "nosched" else self.cat[v]["frames"][k - 1]
         try:
@@ -112,7 +193,36 @@ class Runner:
         except Exception as err:  # noqa: BLE001
             exc = exc_name(err)
         o = self.observe()
-        o.update(k=kind, z=z, v=v, n=k, exc=exc)
+        o.update(k=kind, z=z, v=v, n=k, exc=exc, **{"del": []})
+        return o
+
+    def fetch(self, z: str, v: str) -> dict:
+        """Schedule.get_schedule(force_io=True) whilst the controller holds version v of zone z and its change counter
+        has gone up; nobody else holds the schedule lock, every request is answered.  The call's own result must be
+        what the public view shows afterwards (recorded as an exception of the harness kind if not)."""
+        import asyncio
+
+        ctl = self.ctl
+        if self.cat[v]["zone"] != z:
+            raise HarnessError(f"version {v} is not a schedule of zone {z}")
+        ctl.holds[z] = v
+        ctl.counter += 1
+        ctl.asked, ctl.n_rq = [], 0
+        exc, res = "", None
+        try:
+            res = _loop().run_until_complete(asyncio.wait_for(self.sch[z].get_schedule(force_io=True), 60))
+        except HarnessError:
+            raise
+        except _FetchNoEnd:
+            exc = "no-end"
+        except Exception as err:  # noqa: BLE001
+            exc = exc_name(err)
+        if ctl.zone_lock_idx is not None:  # (C18c's business; the next fetch of the history must not meet a stale lock)
+            ctl.zone_lock_idx = None
+        o = self.observe()
+        if not exc and res != self.sch[z].schedule:
+            raise HarnessError(f"get_schedule() returned something else than Schedule.schedule shows: {res!r}")
+        o.update(k="fetch", z=z, v=v, n=0, exc=exc, **{"del": sorted(set(ctl.asked))})
         return o
 
     def _slots(self, ps) -> list[list]:
